@@ -367,11 +367,35 @@ def normalize(spec):
                 raise SpecError("internal: foreign state in id order")
             n.states[s]["lib_id"] = i
         M["states"] = order
+        # back / back11 (internals.adoc): implicitly created states -- initial states without a row, explicit_creation --
+        # "are added as a source at the end of the transition table", i.e. they are numbered before the states that
+        # occur in the Next column only.  backmp11 numbers them after all targets.  (DESIGN.md, finding KF-3)
+        in_table = set()
+        srcs = []
+        for rid in M["rows"]:
+            in_table.add(n.rows[rid]["src_owner"]); in_table.add(n.rows[rid]["tgt_owner"])
+            if n.rows[rid]["src_owner"] not in srcs:
+                srcs.append(n.rows[rid]["src_owner"])
+        oback = list(srcs)
+        for reg in M["regions"]:
+            if reg[0] not in in_table and reg[0] not in oback:
+                oback.append(reg[0])
+        for s in rest:
+            if s not in oback:
+                oback.append(s)
+        for rid in M["rows"]:
+            if n.rows[rid]["tgt_owner"] not in oback:
+                oback.append(n.rows[rid]["tgt_owner"])
+        assert sorted(oback) == sorted(order), (oback, order)
+        for i, s in enumerate(oback):
+            n.states[s]["lib_id_back"] = i
+        M["states_back"] = oback
         M["has_deferred"] = M["activate_deferred"] or any(n.states[s]["deferred"] for s in order)
         M["has_completion"] = any(n.rows[r]["trigger"] == TRIG_COMPLETION for r in M["rows"])
         M["has_blocking"] = any(n.states[s]["kind"] in (SK["terminate"], SK["interrupt"]) for s in order)
         M["uses_defer_action"] = any(-1 in n.rows[r]["actions"] for r in
                                      M["rows"] + M["irows"] + [x for s in order for x in n.states[s]["irows"]])
+    n.ids_differ = any(M["states"] != M["states_back"] for M in n.machines)
     validate(n)
     return n
 
